@@ -495,4 +495,42 @@ theorem C04_default_construct (trivial : Bool) (m : Mem) (d : View) (v0 : Nat) :
   | true => rfl
   | false => simp only [Bool.false_eq_true, if_false]; exact C04_uninit_fill_refines m d v0
 
+/-! ### the walking locator of for_each_pixel_position / transform_pixel_positions -/
+
+private theorem locRows_eq (xs ys : Int) (w : Nat) : ∀ (h : Nat) (a : Int),
+    locRows xs ys w h a = (List.range h).flatMap (fun (y : Nat) => (List.range w).map (fun (x : Nat) => a + (y : Int) * ys + (x : Int) * xs)) := by
+  intro h
+  induction h with
+  | zero => intro a; simp [locRows]
+  | succ h ih =>
+    intro a
+    rw [locRows, ih, List.range_succ_eq_map, List.flatMap_cons, List.flatMap_map]
+    congr 1
+    · apply List.map_congr_left; intro x _; simp
+    · simp only [List.flatMap_def]
+      congr 1
+      apply List.map_congr_left; intro y _
+      apply List.map_congr_left; intro x _
+      have e : ((y + 1 : Nat) : Int) * ys = (y : Int) * ys + ys := by
+        rw [Int.natCast_add, Int.add_mul]; simp
+      simp only [Nat.succ_eq_add_one]
+      rw [e]; omega
+
+/-- the incrementally kept locator address (`++loc.x()`, `loc.x() -= width; ++loc.y()`) is the address of pixel (x, y): the functor of
+    for_each_pixel_position / transform_pixel_positions sees the pixels in row-major order -/
+theorem C04_position_walk_order (s : View) : implPosAddrs s = specAddrs s := by
+  unfold implPosAddrs
+  rw [locRows_eq, rows_eq s.w s.h (fun (x y : Nat) => s.base + (y : Int) * s.ys + (x : Int) * s.xs)]
+  rfl
+
+theorem C04_transform_positions_refines (m : Mem) (s d : View) (f : Nat → Nat) (hw : s.w = d.w) (hh : s.h = d.h) :
+    implTransformPos m s d f = specTransform m s d f := by
+  unfold implTransformPos specTransform
+  rw [C04_position_walk_order, rows_eq]
+  unfold specAddrs specCopyPairs
+  rw [List.zip_map', hw, hh]
+  rfl
+
+example : implPosAddrs ⟨5, -1, 7, 3, 2⟩ = [5, 4, 3, 12, 11, 10] := by decide
+
 end GilVerif.Props.C04
